@@ -9,7 +9,7 @@ CONSTANTS WithPairs
 VARIABLE c
 ShardNo(s) == CHOOSE i \in 0..63 : ToString(i) = s
 Code(s) == Len(s.pos1) + 3 * Len(s.pos2) + Len(s.car) + (IF s.op1 = "?" THEN 1 ELSE 0) + (IF s.op2 = "?" THEN 2 ELSE 0) + (IF s.good1 THEN 1 ELSE 0)
-Space == Singles \cup MainSingles \cup (IF WithPairs THEN Pairs ELSE {})
+Space == Singles \cup MainSingles \cup VoidParamSingles \cup (IF WithPairs THEN Pairs ELSE {})
 Init == c \in {s \in Space : Code(s) % ShardNo(IOEnv.NSHARDS) = ShardNo(IOEnv.SHARD)}
 Next == FALSE /\ c' = c
 Emit == PrintT(<<"CASE", ToJson(CaseOf(c))>>)
